@@ -496,7 +496,51 @@ Proof.
       apply inZ_In in Ea. destruct (Hfree a Ea) as [_ [_ F3]]. congruence.
 Qed.
 
-Definition no_export (o : iop) : bool := match o with IExportImport => false | _ => true end.
+(* an operation that is not an export + import of the variant that drops the alias index *)
+Definition no_export (o : iop) : bool := match o with IExportImport false => false | _ => true end.
+
+(* --- the rebuilt alias index is, on consistent indexes, exactly the alias index that was exported --- *)
+Lemma metal_meta_aliases s d : meta_aliases s d = metal s d.
+Proof. reflexivity. Qed.
+Lemma rebuild_sound s l a d : oget a (rebuild_from s l) = Some d -> ohas d (by_denom s) = true /\ In a (metal s d).
+Proof.
+  induction l as [|[d0 v] l IH]; cbn [rebuild_from fold_right fst]; [discriminate|].
+  fold (rebuild_from s l). destruct (ohas d0 (by_denom s)) eqn:E; [|exact IH].
+  rewrite set_aliases_spec. destruct (inZ a (meta_aliases s d0)) eqn:Ea; [|exact IH].
+  intros [= <-]. split; [assumption|]. apply inZ_In. exact Ea.
+Qed.
+Lemma rebuild_complete s l a d v : In (d, v) l -> ohas d (by_denom s) = true -> In a (metal s d) ->
+  exists d', oget a (rebuild_from s l) = Some d'.
+Proof.
+  induction l as [|[d0 v0] l IH]; intros Hin Hd Ha; [destruct Hin|]. cbn [rebuild_from fold_right fst]. fold (rebuild_from s l).
+  destruct (ohas d0 (by_denom s)) eqn:E.
+  - rewrite set_aliases_spec. destruct (inZ a (meta_aliases s d0)) eqn:Ea; [eauto|].
+    destruct Hin as [[= -> ->]|Hin]; [|eauto]. apply inZ_false in Ea. contradiction.
+  - destruct Hin as [[= -> ->]|Hin]; [congruence|eauto].
+Qed.
+Lemma oget_some_in {V} k (m : omap V) v : oget k m = Some v -> exists w, In (k, w) m.
+Proof.
+  induction m as [|[k' w] m IH]; cbn [oget]; [discriminate|]. destruct (Z.eqb_spec k k').
+  - subst. intros _. exists w. left. reflexivity.
+  - intros H. destruct (IH H) as [w' Hw]. exists w'. right. assumption.
+Qed.
+Lemma rebuild_identity s a : idx_ok s -> oget a (rebuild_aliases s) = oget a (alias s).
+Proof.
+  intros [P1 P2 P3 P4 P5]. unfold rebuild_aliases. destruct (oget a (rebuild_from s (by_denom s))) as [d|] eqn:E.
+  - apply rebuild_sound in E as [Hd Ha]. symmetry. apply P5; assumption.
+  - destruct (oget a (alias s)) as [d|] eqn:Ea; [|reflexivity]. exfalso.
+    destruct (P4 a d Ea) as [Hd [Ha _]]. pose proof Hd as Hd'. apply ohas_true in Hd' as [id Hid].
+    destruct (oget_some_in _ _ _ Hid) as [w Hw].
+    destruct (rebuild_complete s (by_denom s) a d w Hw Hd Ha) as [d' Hd'']. congruence.
+Qed.
+Lemma idx_ok_rebuild s : idx_ok s ->
+  idx_ok {| pairs := pairs s; by_denom := by_denom s; by_erc := by_erc s; alias := rebuild_aliases s; meta := meta s; mstyle := mstyle s |}.
+Proof.
+  intros Hok. pose proof (fun a => rebuild_identity s a Hok) as R. destruct Hok as [P1 P2 P3 P4 P5].
+  constructor; cbn [pairs by_denom by_erc alias meta]; try assumption.
+  - intros a d. rewrite R. intros H. destruct (P4 a d H) as [Q1 [Q2 Q3]]. auto.
+  - intros d a Hd Ha. rewrite R. apply P5; assumption.
+Qed.
 
 Lemma irun_ok o s s' : no_export o = true -> idx_ok s -> irun o s = Some s' -> idx_ok s'.
 Proof.
@@ -588,10 +632,11 @@ Proof.
       pose proof (P5 d a' Hd' Hin) as Q. rewrite Hdel. destruct (inZ a' (metal s (pr_denom p))) eqn:Ein; [|assumption].
       apply inZ_In in Ein. assert (Hr : ohas (pr_denom p) (by_denom s) = true) by (apply ohas_true; eauto).
       pose proof (P5 _ _ Hr Ein). congruence.
-  - (* ExportImport *) cbn [no_export] in Hnx. discriminate.
+  - (* ExportImport *) destruct rebuild; [|cbn [no_export] in Hnx; discriminate]. injection H as <-. apply idx_ok_rebuild. assumption.
 Qed.
 
-(* over every history WITHOUT a genesis export + import all four indexes and the bank metadata stay consistent *)
+(* over every history whose genesis exports + imports (if any) rebuild the alias index from the bank metadata, all four
+   indexes and the bank metadata stay consistent *)
 Theorem indexes_consistent ops : forallb no_export ops = true -> forall s, idx_ok s -> idx_ok (isteps s ops).
 Proof.
   induction ops as [|o ops IH]; intros Hne s Hs; cbn [isteps fold_left]; [assumption|].
@@ -689,10 +734,11 @@ Proof.
   eapply irun_pidx_ok; eassumption.
 Qed.
 
-(* the full reading is false on the code as it is: after a genesis export + import the alias index is empty although
+(* with an InitGenesis that does not rebuild the alias index (the code when C08-2 was found; the harness probes which
+   variant the code under check is) the full reading is false: after a genesis export + import the alias index is empty although
    the bank metadata of a registered denom still lists its aliases (known/C08.json: C08-2); the harness replays this
    history on the real application *)
-Definition ex_export_hist : list iop := [IRegisterCoin 10 [11; 12] 500; IExportImport].
+Definition ex_export_hist : list iop := [IRegisterCoin 10 [11; 12] 500; IExportImport false].
 Theorem indexes_export_import_refuted :
   idx_ok i_empty /\ forallb no_export ex_export_hist = false /\
   let s := isteps i_empty ex_export_hist in
@@ -704,6 +750,14 @@ Proof.
   assert (H3 : oget 11 (alias (isteps i_empty ex_export_hist)) = None) by (vm_compute; reflexivity).
   split; [exact H1|]. split; [exact H2|]. split; [exact H3|].
   intros [_ _ _ _ P5]. specialize (P5 10 11 H1 H2). rewrite H3 in P5. discriminate.
+Qed.
+(* ... and with the rebuilding InitGenesis the same history keeps them, and the alias stays refused for another denom *)
+Theorem export_import_rebuilt_witness :
+  let s := isteps i_empty [IRegisterCoin 10 [11; 12] 500; IExportImport true] in
+  oget 11 (alias s) = Some 10 /\ oget 12 (alias s) = Some 10 /\ idx_ok s /\ snd (istep s (IRegisterCoin 20 [11] 501)) = false.
+Proof.
+  cbn zeta. split; [vm_compute; reflexivity|]. split; [vm_compute; reflexivity|]. split; [|vm_compute; reflexivity].
+  apply indexes_consistent; [reflexivity|apply idx_ok_empty].
 Qed.
 (* consequences on the real application (each exercised by the harness after the import): the alias can be registered
    again as a denom of its own or as an alias of ANOTHER denom *)
